@@ -424,6 +424,10 @@ enum SOp {
     Pages { k: usize, start: u64, maxr: u64, fs: Vec<CF> },
     LookIdx { k: usize, idx: u64 },
     LookTime { k: usize, t_ms: u64 },
+    /// a command the server has to reject (see bad_cmd); the stream k it is addressed to (if any) must stay as it is
+    Bad { k: usize, kind: u8, arg: u64 },
+    /// stream_change_window with fields that are not numbers (None): the server reads them as 0
+    WindowText { settle: bool, k: usize, a: Option<u64>, b: Option<u64>, junk: u8 },
     /// index= for every index 0..=n
     LookIdxAll { k: usize, n: u64 },
     /// time_ms= at t0_ms + j * step_ms, j < cnt
@@ -881,6 +885,46 @@ fn run_session(srv_port: u16, c: &SessCase, dir: &std::path::Path, uniq: u64) ->
                     _ => op_obs.push(O::T(vec![O::L(1)])),
                 }
             }
+            SOp::Bad { k, kind, arg } => {
+                let id = cur_id(&streams, *k);
+                let text = bad_cmd(*kind, id, *arg);
+                let c0 = text.split(' ').next().unwrap_or("").to_string();
+                let r = cl.cmd(&text, &[&format!("ok: {}", c0), &format!("err: {}", c0)]).unwrap_or_default();
+                if r.starts_with("err:") {
+                    op_obs.push(O::T(vec![O::L(1)]));
+                } else {
+                    op_obs.push(O::T(vec![O::L(0)]));
+                    if viol.is_none() {
+                        viol = Some(sess_fail("rejected_command_gets_err", format!("{:?} was answered {:?}", text, r)));
+                    }
+                }
+            }
+            SOp::WindowText { settle, k, a, b, junk } => {
+                let old = cur_id(&streams, *k);
+                let at_ = a.map(|x| x.to_string()).unwrap_or_else(|| junk_text(*junk).to_string());
+                let bt_ = b.map(|x| x.to_string()).unwrap_or_else(|| junk_text(*junk / 4).to_string());
+                let (start, end) = (a.unwrap_or(0), b.unwrap_or(0));
+                let r = cl.cmd(&format!("stream_change_window {} {},{}", old, at_, bt_), &["ok: stream_change_window", "err: stream_change_window"]).unwrap_or_default();
+                match parse_id_after(&r, "={\"id\":") {
+                    Some(id) if r.starts_with("ok:") => {
+                        let at = cl.log.len() - 1;
+                        for rr in ids.iter_mut() {
+                            if rr.id == old {
+                                rr.superseded_at = Some(at);
+                            }
+                        }
+                        streams[*k].cur = id;
+                        ids.push(IdRec { id, k: *k, start, end, settled: *settle, announced_at: at, superseded_at: None, must_be_complete: false });
+                        if *settle {
+                            settle!();
+                            op_obs.push(O::T(vec![O::L(0), o_delivered(&cl.log, id, false, streams[*k].is_stream)]));
+                        } else {
+                            op_obs.push(O::T(vec![O::L(0), O::T(vec![])]));
+                        }
+                    }
+                    _ => op_obs.push(O::T(vec![O::L(1)])),
+                }
+            }
             SOp::Stop { k } => {
                 if !finished {
                     settle!();
@@ -1105,6 +1149,10 @@ fn run_session(srv_port: u16, c: &SessCase, dir: &std::path::Path, uniq: u64) ->
             })
             .collect()
     };
+    // (1b) ids over the whole connection
+    if viol.is_none() {
+        viol = check_ids(&cl.log);
+    }
     // (2) deliveries per announced id
     if viol.is_none() {
         for r in &ids {
@@ -1291,6 +1339,94 @@ fn summ(v: &[u32], other: &[u32]) -> String {
     format!("[{} entries, first {}, last {}; first difference at position {}]", v.len(), v[0], v[v.len() - 1], d)
 }
 
+const N_BAD_KINDS: u8 = 20;
+/// the text of a command that the server has to reject; `id` = the announced id of the addressed stream
+fn bad_cmd(kind: u8, id: u32, arg: u64) -> String {
+    let unknown = 4_000_000_000u64 + arg % 1000;
+    match kind % N_BAD_KINDS {
+        0 => format!("stream_change_window {}", id),
+        1 => format!("stream_change_window {} {}", id, arg),
+        2 => format!("stream_change_window {} abc", id),
+        3 => format!("stream_change_window {} {};{}", id, arg, arg + 3),
+        4 => format!("stream_search {} {{bad", id),
+        5 => format!("stream_search {} {{\"start_idx\":\"x\"}}", id),
+        6 => format!("stream_search {} {{\"filters\":5}}", id),
+        7 => format!("stream_search {} {{\"max_results\":[1]}}", id),
+        8 => format!("stream_binary_search {} foo={}", id, arg),
+        9 => format!("stream_binary_search {}", id),
+        10 => format!("stream_binary_search {} index", id),
+        11 => format!("stop {}", unknown),
+        12 => format!("stream_change_window {} 1,2", unknown),
+        13 => format!("stream_search {} {{}}", unknown),
+        14 => format!("stream_binary_search {} index=1", unknown),
+        15 => "stop abc".to_string(),
+        16 => "stream {\"window\":[1]}".to_string(),
+        17 => "stream {bad".to_string(),
+        18 => "query {\"filters\":5}".to_string(),
+        _ => "stream {\"window\":\"x\"}".to_string(),
+    }
+}
+fn junk_text(j: u8) -> &'static str {
+    match j % 4 {
+        0 => "x",
+        1 => "",
+        2 => "-3",
+        _ => "99999999999999999999999",
+    }
+}
+
+/// ids over the whole connection: every frame travels under an id that a reply announced before, and a command
+/// addressed to the announced id of a live stream is never answered "not found"
+fn check_ids(log: &[Ev]) -> Option<Verdict> {
+    let mut live: BTreeMap<u32, bool> = BTreeMap::new(); // id -> is_stream
+    let mut announced: std::collections::BTreeSet<u32> = Default::default();
+    let mut last_sent = String::new();
+    for (at, e) in log.iter().enumerate() {
+        let frame_id = match e {
+            Ev::Msgs(i, _) => Some(*i),
+            Ev::StreamInfo { id, .. } => Some(*id),
+            Ev::Text(t) if t.starts_with("stream:") => t[7..].split(' ').next().and_then(|x| x.parse().ok()),
+            _ => None,
+        };
+        if let Some(i) = frame_id {
+            if !announced.contains(&i) {
+                return Some(sess_fail("frame_under_unannounced_id", format!("event {} carries id {} which no reply has announced (after {:?})", at, i, last_sent)));
+            }
+        }
+        match e {
+            Ev::Sent(c) => last_sent = c.clone(),
+            Ev::Text(t) => {
+                if t.starts_with("ok: stream_change_window") {
+                    let old = parse_id_after(t, "ok: stream_change_window").unwrap_or(0);
+                    if let Some(new) = parse_id_after(t, "={\"id\":") {
+                        let kind = live.remove(&old).unwrap_or(true);
+                        live.insert(new, kind);
+                        announced.insert(new);
+                    }
+                } else if t.starts_with("ok: stream ") || t.starts_with("ok: query ") {
+                    if let Some(id) = parse_id_after(t, "{\"id\":") {
+                        live.insert(id, t.starts_with("ok: stream "));
+                        announced.insert(id);
+                    }
+                } else if t.starts_with("ok: stop") {
+                    if let Some(id) = parse_id_after(t, "stream_id") {
+                        live.remove(&id);
+                    }
+                } else if t.starts_with("err:") && t.contains("not found") {
+                    let addressed: Option<u32> = last_sent.split(' ').nth(1).and_then(|x| x.parse().ok());
+                    if let Some(id) = addressed {
+                        if live.get(&id) == Some(&true) {
+                            return Some(sess_fail("announced_id_usable", format!("{:?} on the announced id of a live stream was answered {:?}", last_sent, t)));
+                        }
+                    }
+                }
+            }
+            _ => {}
+        }
+    }
+    None
+}
+
 fn ev_has_id(e: &Ev, id: u32) -> bool {
     match e {
         Ev::Msgs(i, _) => *i == id,
@@ -1383,6 +1519,8 @@ fn sop_coq(o: &SOp) -> String {
         SOp::Pages { k, start, maxr, fs } => format!("SPages {} {} {} {}", k, start, maxr, cfs_coq(fs)),
         SOp::LookIdx { k, idx } => format!("SLookIdx {} {}", k, idx),
         SOp::LookTime { k, t_ms } => format!("SLookTime {} {}", k, t_ms * 1000),
+        SOp::Bad { kind, .. } => format!("SBad {}", kind % N_BAD_KINDS),
+        SOp::WindowText { settle, k, a, b, .. } => format!("SWindow {} {} {} {}", cbool(*settle), k, a.unwrap_or(0), b.unwrap_or(0)),
         SOp::LookIdxAll { k, n } => format!("SLookIdxAll {} {}", k, n),
         SOp::LookTimeAll { k, t0_ms, step_ms, cnt } => format!("SLookTimeAll {} {} {} {}", k, t0_ms * 1000, step_ms * 1000, cnt),
     }
@@ -1403,6 +1541,8 @@ fn sess_record(sink: &mut Sink, c: SessCase, out: SessOut) {
                 SOp::Pages { .. } => "op_pages",
                 SOp::LookIdx { .. } => "op_lookup_index",
                 SOp::LookTime { .. } => "op_lookup_time",
+                SOp::Bad { .. } => "op_rejected",
+                SOp::WindowText { .. } => "op_window_text",
                 SOp::LookIdxAll { .. } => "op_lookup_index_all",
                 SOp::LookTimeAll { .. } => "op_lookup_time_all",
             }
@@ -1410,6 +1550,9 @@ fn sess_record(sink: &mut Sink, c: SessCase, out: SessOut) {
         );
     }
     for o in &c.ops {
+        if let SOp::Bad { kind, .. } = o {
+            tags.push(format!("rejected_kind{:02}", kind % N_BAD_KINDS));
+        }
         if let SOp::New { start, end, .. } | SOp::Window { start, end, .. } = o {
             let w = end.saturating_sub(*start);
             tags.push(if w == 0 { "win_empty".to_string() } else { format!("win_1e{}", w.to_string().len() - 1) });
@@ -1538,6 +1681,7 @@ fn gen_lookup_sess(rng: &mut Rng, sorted: bool, collect: u8, plugin: bool) -> Se
     let span_ms = max_t / 10 + 4;
     let step_ms = (span_ms + 47) / 48;
     for k in 0..3usize {
+        ops.push(SOp::Bad { k, kind: rng.below(N_BAD_KINDS as u64) as u8, arg: rng.below(50) });
         ops.push(SOp::LookIdxAll { k, n: n + 1 });
     }
     for k in 0..3usize {
@@ -1557,7 +1701,7 @@ fn gen_sess(rng: &mut Rng, racing: bool, sorted: bool) -> SessCase {
     for j in 0..nops {
         let raced = j < nraced;
         let settle = !raced;
-        let choice = if kinds.is_empty() { 0 } else { rng.below(10) };
+        let choice = if kinds.is_empty() { 0 } else { rng.below(13) };
         let streams_k: Vec<usize> = (0..kinds.len()).filter(|k| kinds[*k]).collect();
         match choice {
             0 | 1 => {
@@ -1569,6 +1713,30 @@ fn gen_sess(rng: &mut Rng, racing: bool, sorted: bool) -> SessCase {
             2 | 3 if !streams_k.is_empty() => {
                 let (start, end) = gen_window(rng, n);
                 ops.push(SOp::Window { settle, k: *rng.pick(&streams_k), start, end });
+            }
+            10 | 11 if !streams_k.is_empty() => {
+                // a rejected command on a live stream, then the session goes on with valid commands on the SAME announced id
+                let k = *rng.pick(&streams_k);
+                ops.push(SOp::Bad { k, kind: rng.below(N_BAD_KINDS as u64) as u8, arg: rng.below(50) });
+                if rng.chance(1, 3) {
+                    ops.push(SOp::Bad { k, kind: rng.below(11) as u8, arg: rng.below(50) });
+                }
+                let (start, end) = gen_window(rng, n);
+                match rng.below(if raced { 1 } else { 5 }) {
+                    0 | 1 => ops.push(SOp::Window { settle, k, start, end }),
+                    2 => ops.push(SOp::LookIdx { k, idx: rng.below(n + 1) }),
+                    3 => ops.push(SOp::Search { k, start: if racing { n.saturating_sub(rng.below(400)) } else { rng.below(n + 1) }, maxr: 2, fs: gen_filters(rng) }),
+                    _ => ops.push(SOp::Stop { k }),
+                }
+            }
+            12 if !streams_k.is_empty() => {
+                let (start, end) = gen_window(rng, n);
+                let (a, b) = match rng.below(3) {
+                    0 => (None, Some(end)),
+                    1 => (Some(start), None),
+                    _ => (None, None),
+                };
+                ops.push(SOp::WindowText { settle, k: *rng.pick(&streams_k), a, b, junk: rng.below(16) as u8 });
             }
             _ if raced => {
                 let (start, end) = gen_window(rng, n);
@@ -1796,6 +1964,50 @@ fn corpus_sess() -> Vec<SessCase> {
                 SOp::New { settle: true, is_stream: false, binary: true, fs: vec![(1, 1, 1)], start: 6, end: 100 },
                 SOp::Stop { k: 0 },
                 SOp::Window { settle: true, k: 0, start: 0, end: 2 },
+            ],
+        },
+        // every class of rejected command on a live stream, each followed by a valid command on the SAME announced id
+        SessCase {
+            collect: 0,
+            plugin: false,
+            sorted: false,
+            preload: true,
+            file: f12.clone(),
+            ops: {
+                let mut v = vec![SOp::New { settle: true, is_stream: true, binary: true, fs: app12.clone(), start: 0, end: 3 }, SOp::New { settle: true, is_stream: true, binary: false, fs: vec![], start: 1, end: 2 }];
+                for kind in 0..N_BAD_KINDS {
+                    let k = (kind % 2) as usize;
+                    v.push(SOp::Bad { k, kind, arg: 7 });
+                    match kind % 4 {
+                        0 => v.push(SOp::Window { settle: true, k, start: (kind as u64) % 5, end: (kind as u64) % 5 + 3 }),
+                        1 => v.push(SOp::LookIdx { k, idx: (kind as u64) % 12 }),
+                        2 => v.push(SOp::Search { k, start: 0, maxr: 2, fs: vec![(0, 1, 1)] }),
+                        _ => v.push(SOp::LookTime { k, t_ms: t(1) }),
+                    }
+                }
+                v.push(SOp::WindowText { settle: true, k: 0, a: None, b: Some(4), junk: 0 });
+                v.push(SOp::WindowText { settle: true, k: 0, a: Some(2), b: None, junk: 7 });
+                v.push(SOp::Stop { k: 0 });
+                v.push(SOp::Stop { k: 1 });
+                v
+            },
+        },
+        // rejected commands while the file is parsed: the stream keeps getting its messages under the announced id
+        SessCase {
+            collect: 0,
+            plugin: false,
+            sorted: false,
+            preload: false,
+            file: vec![FRun { cnt: 40000, ecu: 1, apid: 0, ctid: 0, ts0: 0, dts: 1, jit: 0 }, FRun { cnt: 40000, ecu: 1, apid: 1, ctid: 0, ts0: 40000, dts: 1, jit: 0 }],
+            ops: vec![
+                SOp::New { settle: false, is_stream: true, binary: true, fs: vec![(0, 1, 1)], start: 39990, end: 40010 },
+                SOp::Bad { k: 0, kind: 1, arg: 7 },
+                SOp::Bad { k: 0, kind: 4, arg: 0 },
+                SOp::Bad { k: 0, kind: 8, arg: 1 },
+                SOp::New { settle: false, is_stream: true, binary: true, fs: vec![], start: 79990, end: 80010 },
+                SOp::Bad { k: 1, kind: 3, arg: 5 },
+                SOp::Window { settle: true, k: 0, start: 5, end: 15 },
+                SOp::Window { settle: true, k: 1, start: 100, end: 110 },
             ],
         },
         // sort:true on a file whose time order is not the index order (timestamps swapped within pairs): index
